@@ -24,13 +24,27 @@ def pf_body(run):
     return None
 
 
+DRAIN_FNS = ("alloc::vec::Vec::<T, A>::drain", "core::mem::take", "core::mem::replace")
+
+
+def output_drains(b):
+    """Calls that empty the handler's output buffer: `output.drain(..)`, `mem::take(&mut *output)`, `mem::replace(&mut *output, ..)`."""
+    out = []
+    for c in b.calls():
+        if c.bb not in b.live_blocks() or c.fn not in DRAIN_FNS:
+            continue
+        if c.fn == DRAIN_FNS[0] or any(y[0] == "field" and y[2] == "output" for y in walk(c.arg(0))):
+            out.append(c)
+    return out
+
+
 def r1(run):
     b = pf_body(run)
     if b is None:
         run.missing(PF + "|body", "process_frame body (appending output frames) not found")
         return
     appends = q.live_calls(b, C.APPEND)
-    run.exact("Store::append sites in process_frame", len(appends), 1, b.sp)
+    run.floor("Store::append sites in process_frame", len(appends), 1, b.sp)
     stamps = {}
     for (k, v, recv, c) in F.map_writes(b):
         stamps.setdefault(k, []).append((v, recv, c))
@@ -49,7 +63,7 @@ def r1(run):
                    "every appended output frame has meta.%s := %s.id inserted first (%d insert site(s))" % (key, who, len(good)), reason="unstamped-handler-output")
         # stamping happens after user meta is in place: it writes INTO the frame's existing meta object (get_or_insert_with), not a fresh one
         goi = [c for c in b.calls() if c.bb in b.live_blocks() and c.fn == "core::option::Option::<T>::get_or_insert_with" and any(y[0] == "field" and y[2] == "meta" for y in walk(c.arg(0)))]
-        run.ob(PF + "|stamp|merges-into-user-meta", len(goi) >= 1 and all(q.dominated(b, a.bb, via_blocks=[g.bb]) for g in goi), a.sp,
+        run.ob(PF + "|stamp|merges-into-user-meta", len(goi) >= 1 and q.dominated(b, a.bb, via_blocks=[g.bb for g in goi]), a.sp,
                "the stamps are merged into the frame's own meta (user keys kept, stamp keys overwritten last)", reason="unstamped-handler-output")
     c06.r4(run)
 
@@ -66,12 +80,22 @@ def r2(run):
     ev = evals[0]
     ok_edges = q.call_result_edges(b, ev, ok=True)
     err_edges = q.call_result_edges(b, ev, ok=False)
-    drains = [c for c in b.calls() if c.bb in b.live_blocks() and c.fn == "alloc::vec::Vec::<T, A>::drain"]
+    drains = output_drains(b)
     run.floor("drains of the output buffer", len(drains), 1, b.sp)
     effects = [("append", c) for c in q.live_calls(b, C.APPEND)] + [("drain", c) for c in drains] + [("cas_insert", c) for c in q.live_calls(b, "xs::store::Store::cas_insert")]
     for name, c in effects:
         run.ob(PF + "|after-success|%s" % name, bool(ok_edges) and q.dominated(b, c.bb, via_edges=ok_edges), c.sp,
                "%s happens only on the success edge of the closure evaluation" % name, reason="output-before-success")
+    # all-or-nothing: once the first frame of an invocation is appended nothing can fail any more (no error return is reachable after an append)
+    err_rets = [bb for (bb, e, raw) in b.return_defs() if bb in b.live_blocks()
+                and any(x[0] == "call" and x[1].fn.endswith("from_residual") or (x[0] == "agg" and x[1].get("variant") == "Err") for x in [strip(o) for o in q.origins(e)])]
+    run.floor("error returns of process_frame", len(err_rets), 2, b.sp)
+    for c in q.live_calls(b, C.APPEND):
+        after = b.reach_after(c.bb)
+        late = [b.blocks[bb]["term"]["sp"] for bb in err_rets if bb in after]
+        run.ob(PF + "|no-failure-after-first-append", not late, c.sp,
+               "no error return is reachable after an output frame was appended: every fallible step of the invocation precedes its first append (%s)" % late,
+               reason="partial-output-on-failure")
     reach = b.reachable_blocks([t for (_, t, _) in err_edges]) if err_edges else set()
     leaked = [name for name, c in effects if c.bb in reach]
     rets = [strip(e) for (bb, e, raw) in b.return_defs() if bb in reach]
@@ -228,6 +252,15 @@ def r4(run):
     if not okc and p_buf and p_ret:
         same = all(q.root_local(b, x.args[0]) == q.root_local(b, p_buf[0].args[0]) for x in p_buf + p_ret)
         okc = same and all(q.reaches(b, x.bb, y.bb) and not q.reaches(b, y.bb, x.bb) for x in p_buf for y in p_ret)
+    # or appended one by one: the append of a buffered frame is never reachable from the append of the return frame
+    if not okc:
+        aps = q.live_calls(b, C.APPEND)
+        def _from(c, pred):
+            return any(pred(y) for y in walk(c.arg(1)))
+        a_buf = [c for c in aps if _from(c, lambda y: y[0] == "call" and y[1].fn in DRAIN_FNS)]
+        a_ret = [c for c in aps if c not in a_buf and _from(c, lambda y: y[0] == "call" and y[1].fn.endswith("::build"))]
+        if a_buf and a_ret and len(a_buf) + len(a_ret) == len(aps):
+            okc = all(q.reaches(b, x.bb, y.bb) and not q.reaches(b, y.bb, x.bb) for x in a_buf for y in a_ret)
     run.ob(PF + "|return-frame|after-buffered", okc, b.sp, "the return frame is chained AFTER the drained buffered frames", reason="output-order")
 
 
